@@ -28,11 +28,13 @@ var (
 	dAp   = u.F("dAp", "A", "A")
 	pCobe = u.F("pCobe", "{B?}", "C,error")
 	// error result in a position other than the last
-	pAef = u.F("pAef", "", "error,A")
-	pBem = u.F("pBem", "A", "B,error,{B@n}")
-	dAef = u.F("dAef", "A", "error,A")
-	pC0e = u.F("pC0e", "", "C,error") // C without dependencies; may fail
-	dAwC = u.F("dAwC", "A,C", "A")    // decorator of A that also needs C
+	pAef  = u.F("pAef", "", "error,A")
+	pBem  = u.F("pBem", "A", "B,error,{B@n}")
+	dAef  = u.F("dAef", "A", "error,A")
+	pAce  = u.F("pAce", "", "A", u.CustomErr) // error result declared as an interface embedding error
+	fG1ce = u.F("fG1ce", "", "A", u.Group("g"), u.CustomErr)
+	pC0e  = u.F("pC0e", "", "C,error") // C without dependencies; may fail
+	dAwC  = u.F("dAwC", "A,C", "A")    // decorator of A that also needs C
 )
 
 // failedValueMonitor: no value of a failed execution is ever delivered.
@@ -186,6 +188,7 @@ func c07Units(tier string) []Unit {
 		{"deco-over-failing-ctor", alpha{scopes: []int{0, 1}, ctors: []*uFunc{pAe, pBe}, decos: []*uFunc{dAe}, invokes: []*uFunc{iA, iB}}, []string{"pAe", "dAe"}, prefixChild},
 		{"error-not-last", alpha{scopes: []int{0, 1}, ctors: []*uFunc{pAef, pBem}, decos: []*uFunc{dAef}, invokes: []*uFunc{iA, iB, iBn}}, []string{"pAef", "pBem", "dAef"}, prefixChild},
 		{"decorator-dependency-fails", alpha{scopes: []int{0, 1}, ctors: []*uFunc{pA, pB, pC0e}, decos: []*uFunc{dAwC}, invokes: []*uFunc{iBo, iB, iA}}, []string{"pC0e"}, prefixChild},
+		{"custom-error-type", alpha{scopes: []int{0, 1}, ctors: []*uFunc{pAce, fG1ce}, invokes: []*uFunc{iA, iG, iGs}}, []string{"pAce", "fG1ce"}, prefixChild},
 		{"reentry-single", alpha{scopes: []int{0, 1}, ctors: []*uFunc{pA, pBe}, decos: []*uFunc{dABae}, invokes: []*uFunc{iA, iB}}, []string{"dABae", "pBe"}, prefixChild},
 		{"reentry-group", alpha{scopes: []int{0, 1}, ctors: []*uFunc{pA, fBgAe}, decos: []*uFunc{dGBAe}, invokes: []*uFunc{iA, iGB}}, []string{"dGBAe", "fBgAe"}, prefixChild},
 	}
